@@ -271,3 +271,13 @@ def increment_amount(P, func, st, attr):
 
 def increments_of(P, func, attr):
     return [st for st, k in assigns_to_attr(P, func, attr) if increment_amount(P, func, st, attr) is not None]
+
+
+def is_clock_call(n):
+    """monotonicTime() / time.monotonic() / time.time(): a call that reads the clock"""
+    if not isinstance(n, ast.Call) or n.args or n.keywords:
+        return False
+    name = unparse(n.func)
+    last = name.split('.')[-1]
+    from .pyir import CLOCK_ALIASES
+    return 'onotonic' in last or name in ('time.time', 'time') or last in ('time',) or name in CLOCK_ALIASES
